@@ -11,7 +11,7 @@ def plan(ctx):
             uncovered.append(f"{fn} missing from the function table")
             continue
         obs.append(Obligation(f"engine_calls.{fn}", "xh", "c05", "engine_calls", param={"fn": fn}, timeout=T,
-                              bounds="flag string: every subset of {i,m,s,x} in lower or upper case, or None, or omitted (symbolic); the stubbed engine reports 0..4 matches (symbolic); subject/pattern irrelevant to the stub",
+                              bounds="flag string: every subset of {i,m,s,x} in lower or upper case, or None, or omitted (symbolic); the stubbed engine reports 0..4 matches (symbolic); clock readings are arbitrary non-decreasing instants (symbolic increments 0..10 s); every re/regex module and precompiled pattern reachable from functions.py is stubbed",
                               desc=f"{fn}: every entry into the regex engine carries timeout in (0, 0.1]; at most 2 engine calls per builtin call"))
     return {
         "obligations": obs, "uncovered": uncovered,
@@ -22,7 +22,7 @@ def plan(ctx):
         "files": ["smartquery/functions.py"],
         "bounds": "flag subsets of {i,m,s,x}; engine hit count 0..4",
         "outside": "the timing claim itself: rests on the regex module honouring timeout= (and pattern compilation, which has no timeout)",
-        "stubs": ["regex module stub (search/match/fullmatch/findall/finditer/sub/split/compile)"],
+        "stubs": ["regular-expression engine stub for every re/regex module object and precompiled pattern in smartquery.functions", "nondeterministic clock for time.time/perf_counter/monotonic/process_time"],
         "assumptions": ["regex honours its timeout argument", "pattern compilation time is not covered"],
         "trusted": ["CrossHair 0.0.110", "z3", "regex (third party)"],
     }
